@@ -1541,7 +1541,13 @@ def replay(ctx, path):
                 print(o[2][-1500:])
                 bad = True
         last = out[-1]
-        if not isinstance(last, tuple) and last is not None and last != model[-1].split(" UNSAFE")[0]:
+        if lines[-1].startswith("cunpack "):
+            # decompressor call: the specification is the codec contract, evaluated on the real answer
+            if not isinstance(last, tuple) and last and last.startswith("ret "):
+                v = ctx.driver(["c05"], "codecret %s %s\n" % (lines[-1].split()[3], last.split()[1]))
+                print("codec contract:", v)
+                bad = bad or v != ["ok"]
+        elif not isinstance(last, tuple) and last is not None and last != model[-1].split(" UNSAFE")[0]:
             bad = True
         print("reproduces:", bad)
         return 1 if bad else 0
